@@ -356,7 +356,7 @@ unsafe fn dispose_general_node<T: RcObject>(
 
     let state = State::from_raw(rc.state.load(Ordering::SeqCst));
     let node_epoch = state.epoch();
-    debug_assert_eq!(state.strong(), 0);
+    debug_assert!(depth > 0 || state.destructed());
 
     let curr_epoch = global_epoch();
     let modu: Modular<EPOCH_WIDTH> = Modular::new(curr_epoch as isize + 1);
@@ -366,6 +366,27 @@ unsafe fn dispose_general_node<T: RcObject>(
     // old enough, `modu.le` may return false.
     if depth == 0 || modu.le(node_epoch as _, curr_epoch as isize - 3) {
         // The current node is immediately reclaimable.
+        if depth > 0 {
+            // Unlike a root, a cascaded node is not marked as destructed yet. Mark it as
+            // `try_destruct` does, re-checking the count: it may have been incremented again
+            // (e.g., by upgrading a weak pointer) after it hit zero.
+            let mut old = state;
+            loop {
+                if old.strong() > 0 {
+                    RcInner::decrement_strong(rc, 1, Some(guard));
+                    return;
+                }
+                match rc.state.compare_exchange(
+                    old.as_raw(),
+                    old.with_destructed(true).as_raw(),
+                    Ordering::SeqCst,
+                    Ordering::SeqCst,
+                ) {
+                    Ok(_) => break,
+                    Err(curr) => old = State::from_raw(curr),
+                }
+            }
+        }
         rc.data_mut().pop_edges(&mut outgoings);
         unsafe {
             ManuallyDrop::drop(&mut rc.storage);
